@@ -33,7 +33,7 @@ def check_finditer(model: Model, report: Report, rule: str) -> None:
         raise AnalysisError("anchor vanished: JSONPathQuery.finditer")
 
     def body(it: Interp) -> Any:
-        q = it.new_inst(ci, "query")
+        q = it.harness_inst(ci, "query")
         q.attrs["env"] = make_env(it, model, None)
         segs = it.new_opaque("query.segments")
         segs.children["__elem_hint__"] = ClassV(model.cls("segments.JSONPathSegment"))
@@ -183,6 +183,16 @@ def check(model: Model, report: Report) -> None:
     _selrules.check_slice(model, report, "R01.5")
     _selrules.check_wildcard(model, report, "R01.5", nondet=False)
     check_new_child(model, report, "R01.9")
+    # a valid filter-free query that is refused returns no nodelist at all: the lexical layer (blank space, shorthand
+    # and quoted names, index/slice lexemes, fixed lexemes) accepts at least the RFC's language (shared with C03)
+    from . import _lexrules
+    from . import _lexstates
+
+    for k_, v_ in {"L1": "blank space", "L2": "member-name shorthand", "L3": "index and slice lexemes", "L6": "quoted names", "L7": "fixed lexemes", "L9": "blank space positions"}.items():
+        report.rule(f"R01.{k_}", f"every spelling the RFC allows for {v_} in a filter-free query is accepted (C03's rule, restricted to the refuses-too-much direction)")
+    _lexrules.lexical_layer(model, report, "b-only", "R01", only=("L1", "L2", "L3", "L6"))
+    _lexstates.check_token_tables(model, report, "R01.L7", "b-only")
+    _lexstates.check_blank_positions(model, report, "R01.L9", "b-only")
     from . import _shapes
 
     _shapes.check_query_trees(model, report, "R01.8")
